@@ -340,6 +340,76 @@ func checkSecurityGeneratorState(c *core.Ctx) error {
 		}
 	}
 	checkResetBufferNotRetained(c, r, prog, core.Module+"/openapi/parser", pkgGen)
+	// (e) the generator-wide scheme cache holds finished schemes only: whatever is stored into Generator.securities is
+	// the first result of a call whose error result was tested, on the no-error edge. A scheme registered while it is
+	// still being built stays in the cache when building fails with an error the configuration ignores, and the next
+	// operation that names it gets the half-built scheme (no type, no parameter name) without any error.
+	{
+		nIns := 0
+		sp := prog.ByPath[pkgGen]
+		if sp != nil {
+			for _, top := range core.PkgFuncs(prog.SSA, sp) {
+				for _, fn := range core.AllFuncs(top) {
+					for _, b := range fn.Blocks {
+						for _, in := range b.Instrs {
+							mu, ok := in.(*ssa.MapUpdate)
+							if !ok {
+								continue
+							}
+							ld, ok := mu.Map.(*ssa.UnOp)
+							if !ok {
+								continue
+							}
+							fa, ok := ld.X.(*ssa.FieldAddr)
+							if !ok || fieldName(fa.X.Type(), fa.Field) != "securities" || recvName(fa.X.Type()) != "Generator" {
+								continue
+							}
+							nIns++
+							key := "security-cache-insert:" + fnKeyFull(fn)
+							ex, ok := mu.Value.(*ssa.Extract)
+							var call *ssa.Call
+							if ok && ex.Index == 0 {
+								call, _ = ex.Tuple.(*ssa.Call)
+							}
+							if call == nil {
+								r.Fail(key, c.Pos(mu.Pos()), "a value that is not the result of a finished call is stored into Generator.securities: a scheme registered before it is complete stays in the cache when building it fails with an ignored error, and later operations use the half-built scheme")
+								continue
+							}
+							checked := false
+							for _, ref := range *call.Referrers() {
+								ee, ok := ref.(*ssa.Extract)
+								if !ok || !core.IsErrorType(ee.Type()) {
+									continue
+								}
+								for _, u := range *ee.Referrers() {
+									bo, ok := u.(*ssa.BinOp)
+									if !ok || bo.Op != token.NEQ || !core.IsNilConst(bo.Y) {
+										continue
+									}
+									for _, bu := range *bo.Referrers() {
+										if iff, ok := bu.(*ssa.If); ok {
+											okb := iff.Block().Succs[1]
+											if okb == b || okb.Dominates(b) {
+												checked = true
+											}
+										}
+									}
+								}
+							}
+							if checked {
+								r.Pass(fmt.Sprintf("%s stores the checked result of %s into Generator.securities", fnKeyFull(fn), core.CalleeName(call.Common())))
+							} else {
+								r.Fail(key, c.Pos(mu.Pos()), "the result of "+core.CalleeName(call.Common())+" is stored into Generator.securities without its error having been tested first")
+							}
+						}
+					}
+				}
+			}
+		}
+		if nIns == 0 {
+			r.Undecided("security-cache-insert:none", "-", "no insert into Generator.securities found")
+		}
+	}
 	// (b)
 	pp := prog.ByPath[core.Module+"/openapi/parser"]
 	if pp == nil {
